@@ -26,7 +26,7 @@ func init() {
 			Rule: rule,
 		}
 	}
-	register(common("C05", 0, "histories over 2-4 five-tuples (IPv4 and IPv6; intra-node, to-external, inter-node correlated, egress-denied, ingress-rejected, ingress-dropped) of records from source/destination nodes respecting the exporter contract (per node end times strictly increase, totals do not decrease, end > start), resets, exports and queries (one key, all flows, a partial key), several records per message, three element orders, records that omit an element, free-text httpVals (JSON objects and text that is none), through direct calls or the worker pool; checked against the sequential model after every operation; non-trivial = at least 3 records aggregated into an existing flow; distinct = distinct event-log hash"))
+	register(common("C05", 0, "histories over 2-4 five-tuples (IPv4 and IPv6; intra-node, to-external, inter-node correlated, egress-denied, ingress-rejected, ingress-dropped) of records from source/destination nodes respecting the exporter contract (per node end times strictly increase - now and then by 2^31 s or more -, totals do not decrease, end > start), resets, exports and queries (one key, all flows, a partial key), several records per message, three element orders, records that omit an element, free-text httpVals (JSON objects and text that is none), through direct calls or the worker pool; checked against the sequential model after every operation; non-trivial = at least 3 records aggregated into an existing flow; distinct = distinct event-log hash"))
 	register(common("C06", 1, "histories of {record, clock advance (0, 1 ns, exactly to a deadline, deadline +/- 1 ns, multiples of the timeouts), expiry scan whose callback fails on chosen invocations or takes time, query}; callback set/order, map/heap bijection, heap order and deadlines checked after every operation; non-trivial = at least 2 scans that exported something or a scan with a failing callback; distinct = distinct event-log hash"))
 	register(common("C07", 2, "histories of source-node and destination-node records of inter-node flows in all arrival orders and multiplicities, with the full correlate list, one with an unsupported entry, a partial one or none, boundary values in numeric correlate fields, interleaved with expiry scans up to retry exhaustion; ready/filled status, merged fields and retry/drop timing checked against the model; non-trivial = at least one correlation or one retry; distinct = distinct event-log hash"))
 }
@@ -47,6 +47,7 @@ type genFlow struct {
 
 func genAgg(seed uint64, tier string, emphasis int) *plan.Plan {
 	r := rand.New(rand.NewPCG(seed, 0xa99+uint64(emphasis)))
+	jr := rand.New(rand.NewPCG(seed, 0x1a99)) // a stream of its own for the long gaps: the rest of the plan is what it was without them
 	pl := &plan.Plan{Cfg: map[string]int64{}}
 	nk := 2 + r.IntN(3)
 	pl.Cfg["keys"] = int64(nk)
@@ -135,6 +136,11 @@ func genAgg(seed uint64, tier string, emphasis int) *plan.Plan {
 			prev = nodeStart
 		}
 		end := prev + uint32(1+r.IntN(20))
+		if emphasis == 0 && prev < 1<<30 && jr.IntN(40) == 0 && f.rates[0] < 1<<30 && f.rates[1] < 1<<30 && f.rates[2] < 1<<30 && f.rates[3] < 1<<30 {
+			// a node that reports again after a very long time (or whose clock was set): the end time
+			// moves by 2^31 seconds or more, still a later end time like any other
+			end = prev + 1<<31 + uint32(jr.IntN(5))
+		}
 		if r.IntN(4) == 0 {
 			// try to tie with / undercut the other node's latest end time
 			other := f.lastEnd[1-ni]
